@@ -59,6 +59,47 @@ PROPS = {
         "assumptions": CODEC_ASSUME + ["the ring buffer (github.com/Allenxuxu/ringbuffer v0.0.11) is a dependency: modelled after its source and compared operation by operation",
                                        "connection-level part (TCP read segmentation) is exercised by the client scenario checks, not proved"],
     },
+    "C10": {
+        "kind": "codec", "modules": ["OAP.Props.C10"], "gens": ["C10"],
+        "rule": "Compress/Decompress of the real code on generated byte strings (empty, repeated, random, compressible text; 0 B .. 100 kB, thorough: "
+                "MBs); EVERY truncation point and single-bit/byte corruptions of small valid streams incl. CRC and ISIZE; trailers understating / "
+                "overstating the size; trailing garbage; multi-member streams; hostile tiny streams claiming 2^24..2^31 bytes; random bytes with and "
+                "without the gzip magic. For each the standard library reader gives the oracle's value; verdict and content are compared with the model "
+                "and `success iff complete and valid, then full content` is evaluated on the real code; allocation (TotalAlloc delta, GC off) must "
+                "stay under 4*(1032*len(in)+512)+64KiB. Frame level: threshold x body-length grid around the threshold (both versions, negative "
+                "thresholds) through Pack/UnpackBytes/Unpack. N goroutines over the shared pools vs sequential results (supporting).",
+        "assumptions": CODEC_ASSUME + ["DEFLATE/CRC-32 and the gzip container are compress/gzip's (trusted); the theorems are about the glue, with the library as an explicit oracle",
+                                       "sync.Pool hands an object to one goroutine at a time (trusted); the concurrent run only samples schedules"],
+    },
+    "C04": {
+        "kind": "codec", "modules": ["OAP.Props.C04"], "gens": ["C04"],
+        "rule": "malformed-input stream over every decoding entry point, both versions: valid frames with each length field set to 0 / max / actual+-1, "
+                "headers claiming 2^24-1 body bytes or 65535 metadata bytes with nothing behind, flag/type-nibble flips, random byte mutations, every "
+                "truncation point, random bytes; each through the real one-shot decoder and through the real streaming decoder whole, 1 byte at a time "
+                "and under random partitions on rings of capacity 1..4096 with moved offsets; random bytes through UnmarshalValues and Handshake.Unpack; "
+                "hostile gzip trailers and random streams through gzip.Decompress; Packet.Err on all 256 status codes x {valid error body, garbage, "
+                "empty} x codecs x types. Verdicts (ok/err/more/panic, recover around each call) and all fields are compared with the model; a panic, "
+                "a packet reported without consuming a byte, or TotalAlloc of one decode call above 4*(1032*len+512)+64KiB is a failing input.",
+        "assumptions": CODEC_ASSUME + ["allocation is measured with runtime.MemStats.TotalAlloc around single calls (GC off); Go's allocator is runtime",
+                                       "protobuf/JSON decoding of the error body is an oracle (the real decoders' verdict is passed to the model)"],
+    },
+    "C11": {
+        "kind": "codec", "modules": ["OAP.Props.C11"], "gens": ["C11"],
+        "rule": "histories of 20-80 operations over 3 connection contexts (v1, v2, mixed codecs) on one goroutine mixing: Pack, one-shot decodes of "
+                "valid / truncated / mutated frames, streaming steps with whole frames, partial frames (header parked), their tails, and garbage "
+                "(failed decodes), so that pooled headers are recycled with every kind of stale content; every result is compared with the Lean "
+                "model (which has no shared state) and, on the real code, with the same operation on a fresh context / with an isolated shadow "
+                "connection that only sees that connection's stream. Plus N goroutines with private contexts vs sequential results (supporting).",
+        "assumptions": CODEC_ASSUME + ["sync.Pool hands an object to one goroutine at a time (trusted)"],
+    },
+    "C19": {
+        "kind": "codec", "modules": ["OAP.Props.C19"], "gens": ["C19"],
+        "rule": "random mixes of NewRequest/MustNewRequest/NewResponse/MustNewResponse/NewPush/MustNewPush with random WithVerify/WithRequestId/"
+                "WithStatusCode options on a context (an independent context stepped in between), ids/status/verify compared with the model and with "
+                "the property (k-th request id = k whatever the options; response/push id = the caller's); G goroutines x M calls on one context "
+                "(2x1000, 8x2000, 64x500; thorough x5): the multiset of ids must be exactly 1..G*M and increasing per goroutine.",
+        "assumptions": CODEC_ASSUME + ["sync/atomic.AddUint32 is atomic (trusted); the statement-list facts of the constructors are regenerated from the source"],
+    },
 }
 
 
